@@ -76,6 +76,15 @@ class PiecewiseTreeRegressor(DecisionTreeRegressor):
 
         if self.criterion == "mselin":
             self._fit_reglin(X, y, sample_weight)
+        else:
+            # attributes left by a former fit with criterion='mselin'
+            # describe another tree
+            if hasattr(self, "leaves_index_"):
+                del self.leaves_index_
+            if hasattr(self, "leaves_mapping_"):
+                del self.leaves_mapping_
+            if hasattr(self, "betas_"):
+                del self.betas_
         return self
 
     def _mapping_train(self, X):
